@@ -31,7 +31,7 @@ lines.append("Total: %d of %d broken trees caught. Last full run: three parallel
              "(tools/sensitivity.py --shard i/3 --workers 4 --budget 50, i.e. a third of the "
              "quick tier's effort per tree)%s. Not caught: seeded/C03-f (unreachable since fix "
              "170d1f8), seeded/C06-b and seeded/C07-h (not manifest under TCP semantics), "
-             "seeded/C18-m (needs a non-conformant server)." %
+             "seeded/C18-m (needs a non-conformant server), seeded/C13-m (its workload is switched off by default, open question Q1 in section 9)." %
              (caught, tot, ("; %d trees that this reduced effort missed were re-run with the "
                             "quick tier's 16 workers and caught (%s)" %
                             (len(renote), ", ".join(renote))) if renote else ""))
